@@ -612,6 +612,14 @@ impl Board {
             return false;
         }
 
+        // a side never has more than 16 men; the move generator's fixed-size move list
+        // (one slot per moving man plus two for en passant) depends on that
+        for color in ALL_COLORS.iter() {
+            if self.color_combined(*color).popcnt() > 16 {
+                return false;
+            }
+        }
+
         // make sure there is exactly one white king
         if (self.pieces(Piece::King) & self.color_combined(Color::White)).popcnt() != 1 {
             return false;
